@@ -32,6 +32,8 @@ var c16Lines = []string{
 	"U | project `a;b` = 'p;q' ; let",
 	"let x = 1; let w = x + 1;",
 	"T | take w;",
+	"let s = \"nul\x00byte\rmid\x7f\xffend\u00a0\"; T | where a == s;",
+	"F | where `dir\\` == x; F | count;",
 	"V | where u == \"http://a\"; W | count",
 }
 
@@ -211,7 +213,7 @@ func c16Compare(w *run.Worker, input, channel string, got cliRun, outFile *strin
 }
 
 func c16Main(r *run.Runner) {
-	r.Rule = "explicit-state exploration of the command-line tool: every history of <= k input lines over a 17-line alphabet (accepted / rejected / redefined lets, statements spread over lines, two statements per line, lexical errors, comments, blank lines, semicolons inside strings and names), with and without a final newline, is fed to the real pql binary built from /repo; " +
+	r.Rule = "explicit-state exploration of the command-line tool: every history of <= k input lines over a 19-line alphabet (accepted / rejected / redefined lets, statements spread over lines, two statements per line, lexical errors, comments, blank lines, semicolons inside strings and names), with and without a final newline, is fed to the real pql binary built from /repo; " +
 		"standard output, exit status and diagnostics are compared with a model that splits the text with the reference tokenizer and calls the library per statement. Channels: stdin for every history; one file, two files split at every line boundary, -o file and CRLF line ends for every history of <= k-1 lines. Faults: a 70 000-byte line at every position, a directory and a missing file as inputs. " +
 		"states = distinct histories, transitions = lines fed, traces validated = runs of the real binary compared with the model"
 	r.Assume = []string{"the model calls pql.Compile per statement (the library's own correctness is the subject of the other properties)",
@@ -366,6 +368,37 @@ func c16Main(r *run.Runner) {
 				w.Count("traces_validated", 1)
 			}
 		}
+	})
+	// bulk scripts: hundreds of statements spread over one, two or three lines each (kilobytes of input)
+	bulkSizes := []int{20, 60, 150, 300, 700}
+	r.Sweep("bulk-scripts", int64(len(bulkSizes)*3), func(w *run.Worker, item int64) {
+		if envs[w.ID] == nil {
+			d := filepath.Join(scratch, fmt.Sprintf("w%d", w.ID))
+			os.MkdirAll(d, 0o755)
+			envs[w.ID] = &cliEnv{bin: bin, dir: d}
+		}
+		e := envs[w.ID]
+		n := bulkSizes[item/3]
+		shape := item % 3
+		var sb strings.Builder
+		for i := 0; i < n; i++ {
+			switch shape {
+			case 0:
+				fmt.Fprintf(&sb, "Events%d | where code == %d | take 5;\n", i, i)
+			case 1:
+				fmt.Fprintf(&sb, "Events%d\n| where code == %d | take 5;\n", i, i)
+			default:
+				fmt.Fprintf(&sb, "let k%d = %d; // binding %d\nEvents%d | where code == k%d\n  | project code, msg%d = strcat('m', \"%d\");\n", i, i, i, i, i, i, i)
+			}
+		}
+		input := sb.String()
+		w.Begin("cli-vs-model:bulk", fmt.Sprintf("%d statements, shape %d, %d bytes", n, shape, len(input)))
+		w.Nontrivial()
+		c16Compare(w, input, "stdin", e.run(w, input), nil)
+		f1 := filepath.Join(e.dir, "bulk.pql")
+		os.WriteFile(f1, []byte(input), 0o644)
+		c16Compare(w, input, "file", e.run(w, "", f1), nil)
+		w.Count("traces_validated", 2)
 	})
 	// faults
 	faultHist := [][]int{}
